@@ -91,6 +91,13 @@ func sliceElems(v ssa.Value, depth int) ([]sliceElem, bool) {
 			}
 			return append(append([]sliceElem{}, base...), more...), true
 		}
+		// a helper of the repository that builds and returns the list: resolve its (single) result
+		if h := staticCallee(x); h != nil && len(h.Blocks) > 0 && strings.HasPrefix(h.Pkg.Pkg.Path(), modPath) {
+			rets := returnsOf(h)
+			if len(rets) == 1 && len(retVals(rets[0])) == 1 {
+				return sliceElems(retVals(rets[0])[0], depth+1)
+			}
+		}
 	case *ssa.Phi:
 		var lists [][]sliceElem
 		for _, e := range x.Edges {
